@@ -112,6 +112,7 @@ class Engine:
         self.param_values = {}
         self.decide_calls = 0
         self.assumed_used = set()
+        self.callee_used = set()      # repo callees whose PROVED contracts were used (modular reasoning)
         self.ghost_hits = set()
 
     # ------------------------------------------------------------------------------------
